@@ -377,7 +377,19 @@ def inline_call(caller, bi, callee):
             continue
         pl = _borrowed_place(caller, a['place']['l'])
         if pl is not None:
-            subst[off_l + 1 + i] = pl
+            # ... unless the callee re-assigns the parameter (`mut payload: &[u8]` advanced in a loop): then `*param`
+            # denotes a different place on each round
+            pidx = i + 1
+            reassigned = False
+            for cb_ in callee['blocks']:
+                for st_ in cb_['stmts']:
+                    if st_.get('k') == 'assign' and st_['place']['l'] == pidx and not st_['place']['p']:
+                        reassigned = True
+                t_ = cb_['term']
+                if t_.get('k') == 'call' and t_.get('dest') is not None and t_['dest']['l'] == pidx and not t_['dest']['p']:
+                    reassigned = True
+            if not reassigned:
+                subst[off_l + 1 + i] = pl
     if subst:
         def fix(o):
             if isinstance(o, dict):
@@ -1052,6 +1064,14 @@ def rename_types_back(j, known_adts):
         cands = [x for x in extra if (x.rsplit('::', 1)[0] if '::' in x else '') == parent and x not in ren.values() and sig_of_cur(cur[x], x, m) == sig_of_known(known_adts[m], m)]
         if len(cands) == 1:
             ren[m] = cands[0]
+    # a type MOVED to another module keeps its name, variants and fields
+    for m in missing:
+        if m in ren:
+            continue
+        last = m.split('::')[-1]
+        cands = [x for x in extra if x.split('::')[-1] == last and x not in ren.values() and sig_of_cur(cur[x], x, m) == sig_of_known(known_adts[m], m)]
+        if len(cands) == 1:
+            ren[m] = cands[0]
     if ren:
         pats = [(_re.compile(r'(?<![A-Za-z0-9_])' + _re.escape(new) + r'(?![A-Za-z0-9_])'), old) for old, new in ren.items()]
         # also the `mrecordlog::`-prefixed spelling
@@ -1707,6 +1727,339 @@ def expand_adt_consts(j):
     return n[0]
 
 
+def _walk_places(o, fn, ctx=None):
+    """call fn(place_dict, context) for every place dict inside o; context: 'ref' (borrowed), 'discr', 'def' (assigned),
+    'drop', 'op' (operand), with the enclosing dict available to the caller through closures"""
+    if isinstance(o, dict):
+        if 'l' in o and 'p' in o and isinstance(o.get('p'), list):
+            fn(o, ctx)
+            for e in o['p']:
+                if isinstance(e, dict) and e.get('k') == 'index':
+                    pass
+            return
+        k = o.get('k')
+        for key, v in o.items():
+            c = ctx
+            if key == 'place' and k in ('ref', 'rawptr'):
+                c = 'ref'
+            elif key == 'place' and k == 'discr':
+                c = 'discr'
+            elif key == 'place' and k in ('copy', 'move'):
+                c = 'op'
+            elif key == 'place' and k == 'assign':
+                c = 'def'
+            elif key == 'place' and k == 'drop':
+                c = 'drop'
+            elif key == 'dest':
+                c = 'def'
+            _walk_places(v, fn, c)
+    elif isinstance(o, list):
+        for v in o:
+            _walk_places(v, fn, ctx)
+
+
+def sroa(j, only_paths=None):
+    """A-SROA (scalar replacement of aggregates) + reference forwarding, on bodies that received inlined code.
+    `let a = Assembly { buf: &mut self.buf, flag: &mut self.flag }; a.push(..)` with `push` inlined leaves
+    `*(a.flag) = true`: the store happens through a reference kept in a field of a local struct, and no rule keyed
+    on `Reader.flag` can see it. (1) A local struct / tuple that is built once by an aggregate, handed on by whole
+    moves only, and otherwise touched field by field is replaced by one local per field (loop state kept in a
+    `Splitter { remaining, is_first }` becomes two plain loop variables again). (2) A reference local with a single
+    definition chain ending in `&[mut] P`, P a field path under a dereferenced parameter, is replaced by P wherever it
+    is dereferenced (`*(r) = v` becomes `self.flag = v`) -- the same substitution A-INLINE does for borrowed arguments.
+    Returns the number of aggregates replaced and references forwarded."""
+    n_sroa = n_fwd = 0
+    adt_fields = {}
+    for a in j.get('adts', []):
+        if len(a.get('variants', [])) == 1:
+            adt_fields[strip_crate(a['path'])] = [f.get('ty') for f in a['variants'][0]['fields']]
+    for b in j.get('instances', []) + j.get('poly', []):
+        blocks = b['blocks']
+        if not any(st.get('inl') for blk in blocks for st in blk['stmts']) and not any(blk['term'].get('inl') for blk in blocks):
+            continue
+        live = [blk for blk in blocks if not blk.get('cleanup')]
+        argc = b.get('arg_count', 0)
+        for _round in range(6):
+            # ---- defs / uses
+            ndef = {}
+            whole_uses = {}      # local -> list of (kind, stmt or term, blk)
+            field_uses = {}
+            def note(pl, ctx_, holder, blk):
+                l = pl['l']
+                if ctx_ == 'def' and not pl['p']:
+                    ndef[l] = ndef.get(l, 0) + 1
+                    return
+                if not pl['p']:
+                    whole_uses.setdefault(l, []).append((ctx_, holder, blk))
+                elif pl['p'][0].get('k') == 'field':
+                    field_uses.setdefault(l, []).append((ctx_, holder, blk))
+                else:
+                    whole_uses.setdefault(l, []).append(('proj:' + str(pl['p'][0].get('k')), holder, blk))
+                for e in pl['p']:
+                    if e.get('k') == 'index':
+                        whole_uses.setdefault(e['local'], []).append(('index', holder, blk))
+            for blk in live:
+                for st in blk['stmts']:
+                    if st.get('k') == 'assign':
+                        note(st['place'], 'def', st, blk)
+                        _walk_places(st['rv'], lambda pl, c, st=st, blk=blk: note(pl, c or 'op', st, blk), None)
+                t = blk['term']
+                if t.get('k') == 'call' and t.get('dest') is not None:
+                    note(t['dest'], 'def', t, blk)
+                if t.get('k') == 'drop' and isinstance(t.get('place'), dict):
+                    note(t['place'], 'drop', t, blk)
+                _walk_places({k: v for k, v in t.items() if k in ('args', 'discr', 'cond')}, lambda pl, c, t=t, blk=blk: note(pl, c or 'op', t, blk), None)
+            # ---- dead reference temporaries (`_r = &mut x; _p = move _r` with _p never read)
+            def is_dead(l, seen=()):
+                if l == 0 or l <= argc or l in seen:
+                    return False
+                if field_uses.get(l):
+                    return False
+                for (c, holder, blk) in whole_uses.get(l, []):
+                    if c == 'drop':
+                        continue
+                    if holder.get('k') == 'assign' and not holder['place']['p'] and holder['rv']['k'] in ('use', 'cast', 'ref') and is_dead(holder['place']['l'], seen + (l,)):
+                        continue
+                    return False
+                return True
+            changed = False
+            for blk in live:
+                for si, st in enumerate(list(blk['stmts'])):
+                    if st.get('k') != 'assign' or st['place']['p'] or st['rv'].get('k') != 'agg':
+                        continue
+                    rv = st['rv']
+                    if not ((rv.get('agg') == 'adt' and not rv.get('is_enum')) or rv.get('agg') == 'tuple') or not rv.get('ops'):
+                        continue
+                    x = st['place']['l']
+                    if x == 0 or x <= argc or ndef.get(x, 0) != 1:
+                        continue
+                    # chain of whole moves
+                    chain = [x]
+                    moves = []
+                    ok = True
+                    cur = x
+                    while ok:
+                        nxt = None
+                        for (c, holder, hb) in whole_uses.get(cur, []):
+                            if c == 'drop':
+                                continue
+                            if c == 'ref' and holder.get('k') == 'assign' and is_dead(holder['place']['l']):
+                                continue
+                            if c == 'op' and holder.get('k') == 'assign' and not holder['place']['p'] and holder['rv']['k'] == 'use' and holder['rv']['op'].get('place') and not holder['rv']['op']['place']['p'] \
+                                    and holder['rv']['op']['place']['l'] == cur and ndef.get(holder['place']['l'], 0) == 1 and holder['place']['l'] > argc and nxt is None:
+                                nxt = (holder['place']['l'], holder, hb)
+                                continue
+                            ok = False
+                        if not ok or nxt is None:
+                            break
+                        chain.append(nxt[0])
+                        moves.append((nxt[1], nxt[2]))
+                        cur = nxt[0]
+                    if not ok:
+                        continue
+                    if not any(field_uses.get(c_) for c_ in chain):
+                        continue
+                    # field types
+                    tys = []
+                    decl = adt_fields.get(strip_crate(rv.get('adt') or '')) if rv.get('agg') == 'adt' else None
+                    for i, o in enumerate(rv['ops']):
+                        if o.get('k') in ('copy', 'move') and not o['place']['p']:
+                            tys.append(copy.deepcopy(b['locals'][o['place']['l']]))
+                        elif o.get('k') == 'const':
+                            tys.append({'ty': o.get('ty'), 'adt': None})
+                        elif decl and i < len(decl):
+                            tys.append({'ty': decl[i], 'adt': None})
+                        else:
+                            tys = None
+                            break
+                    if tys is None:
+                        continue
+                    base = len(b['locals'])
+                    b['locals'].extend(tys)
+                    new_stmts = [{'k': 'assign', 'place': {'l': base + i, 'p': []}, 'rv': {'k': 'use', 'op': o}, 'span': st.get('span'), 'exp': st.get('exp'), 'inl': 'sroa'} for i, o in enumerate(rv['ops'])]
+                    idx = blk['stmts'].index(st)
+                    blk['stmts'][idx:idx + 1] = new_stmts
+                    for (mv, hb) in moves:
+                        if mv in hb['stmts']:
+                            hb['stmts'].remove(mv)
+                    cs_ = set(chain)
+                    def fix(pl, c):
+                        if pl['l'] in cs_ and pl['p'] and pl['p'][0].get('k') == 'field':
+                            i = pl['p'][0]['i']
+                            pl['l'] = base + i
+                            pl['p'] = pl['p'][1:]
+                    for blk2 in blocks:
+                        for st2 in blk2['stmts']:
+                            if st2.get('k') == 'assign':
+                                fix(st2['place'], 'def') if st2['place']['p'] else None
+                                _walk_places(st2['rv'], fix, None)
+                        t2 = blk2['term']
+                        if t2.get('k') == 'call' and t2.get('dest') is not None and t2['dest']['p']:
+                            fix(t2['dest'], 'def')
+                        _walk_places({k: v for k, v in t2.items() if k in ('args', 'discr', 'cond')}, fix, None)
+                    n_sroa += 1
+                    changed = True
+                    break
+                if changed:
+                    break
+            if not changed:
+                break
+        # ---- (2) reference forwarding
+        cand = set()
+        def see(pl, c):
+            if pl['p'] and pl['p'][0].get('k') == 'deref' and pl['l'] > argc and strip_crate(b['locals'][pl['l']].get('ty') or '').startswith(('&', '*')):
+                cand.add(pl['l'])
+        for blk in live:
+            for st in blk['stmts']:
+                if st.get('k') == 'assign':
+                    see(st['place'], 'def')
+                    _walk_places(st['rv'], see, None)
+            t = blk['term']
+            if t.get('k') == 'call' and t.get('dest') is not None:
+                see(t['dest'], 'def')
+            _walk_places({k: v for k, v in t.items() if k in ('args', 'discr', 'cond')}, see, None)
+        subst = {}
+        for r in cand:
+            pl = _borrowed_place(b, r)
+            if pl is None or not pl['p'] or pl['p'][0].get('k') != 'deref' or not (1 <= pl['l'] <= argc):
+                continue
+            if any(e.get('k') not in ('deref', 'field') for e in pl['p']) or sum(1 for e in pl['p'] if e.get('k') == 'deref') != 1:
+                continue
+            subst[r] = pl
+        if subst:
+            def fwd(pl, c):
+                if pl['l'] in subst and pl['p'] and pl['p'][0].get('k') == 'deref':
+                    base_ = subst[pl['l']]
+                    pl['l'] = base_['l']
+                    pl['p'] = copy.deepcopy(base_['p']) + pl['p'][1:]
+            for blk in blocks:
+                for st in blk['stmts']:
+                    if st.get('k') == 'assign':
+                        fwd(st['place'], 'def')
+                        _walk_places(st['rv'], fwd, None)
+                t = blk['term']
+                if t.get('k') == 'call' and t.get('dest') is not None:
+                    fwd(t['dest'], 'def')
+                _walk_places({k: v for k, v in t.items() if k in ('args', 'discr', 'cond')}, fwd, None)
+            n_fwd += len(subst)
+    return {'aggregates_replaced': n_sroa, 'references_forwarded': n_fwd}
+
+
+def forward_aggregate_reads(j):
+    """A-FWD. `let (h, rest) = parse(buf)?` with `parse` inlined reads `((r as Some).0).0` out of aggregates built a few
+    statements earlier (`h = Header{..}; t = (h, rest); r = Some(t)`). Def-use that is not field-sensitive through
+    nested aggregates conflates `h` and `rest`. Where the value read is determined -- every definition of the base is
+    an aggregate (followed through whole moves), exactly one of them has the variant being read, and the operand
+    stored there is a constant or a single-definition local -- the read is replaced by that operand. Returns the
+    number of reads forwarded."""
+    n = 0
+    for b in j.get('instances', []) + j.get('poly', []):
+        blocks = b['blocks']
+        live = [blk for blk in blocks if not blk.get('cleanup')]
+        argc = b.get('arg_count', 0)
+        for _round in range(4):
+            defs = {}
+            for blk in live:
+                for st in blk['stmts']:
+                    if st.get('k') == 'assign':
+                        defs.setdefault(st['place']['l'], []).append(('assign', st))
+                t = blk['term']
+                if t.get('k') == 'call' and t.get('dest') is not None:
+                    defs.setdefault(t['dest']['l'], []).append(('call', t))
+            def agg_defs(l, depth=0):
+                ds = defs.get(l, [])
+                if not ds or depth > 6 or l <= argc:
+                    return None
+                out = []
+                for (k, d) in ds:
+                    if k == 'call':
+                        if (d.get('callee') or {}).get('name', '').endswith('::from_residual'):
+                            out.append({'k': 'agg', 'variant': 'Err', 'opaque': True, 'ops': []})
+                            continue
+                        return None
+                    if d['place']['p']:
+                        return None
+                    rv = d['rv']
+                    if rv['k'] == 'agg':
+                        out.append(rv)
+                    elif rv['k'] == 'use' and rv['op'].get('k') in ('copy', 'move') and not rv['op']['place']['p']:
+                        sub = agg_defs(rv['op']['place']['l'], depth + 1)
+                        if sub is None:
+                            return None
+                        out.extend(sub)
+                    else:
+                        return None
+                return out
+            def single_def(l):
+                return l > argc and len(defs.get(l, [])) == 1
+            def resolve(pl, depth=0):
+                """operand equal to a read of place pl, or None"""
+                proj = pl['p']
+                if not proj or depth > 6 or any(e.get('k') not in ('field', 'downcast') for e in proj):
+                    return None
+                var = None
+                k = 0
+                if proj[0]['k'] == 'downcast':
+                    var = proj[0].get('variant')
+                    k = 1
+                if len(proj) <= k or proj[k]['k'] != 'field':
+                    return None
+                idx = proj[k]['i']
+                rest = proj[k + 1:]
+                aggs = agg_defs(pl['l'])
+                if not aggs:
+                    return None
+                uniq = []
+                for a in aggs:
+                    if not any(a is u for u in uniq):
+                        uniq.append(a)
+                aggs = uniq
+                cands = [a for a in aggs if var is None or a.get('variant') == var]
+                if len(cands) != 1 or cands[0].get('opaque') or (var is None and len(aggs) != 1):
+                    return None
+                if var is None and cands[0].get('is_enum'):
+                    return None
+                ops = cands[0].get('ops') or []
+                if idx >= len(ops):
+                    return None
+                o = ops[idx]
+                if o.get('k') == 'const':
+                    return copy.deepcopy(o) if not rest else None
+                if o.get('k') not in ('copy', 'move'):
+                    return None
+                q = o['place']
+                if any(e.get('k') in ('deref', 'index') for e in q['p']):
+                    return None
+                np_ = {'l': q['l'], 'p': copy.deepcopy(q['p']) + copy.deepcopy(rest)}
+                if np_['p']:
+                    deeper = resolve(np_, depth + 1)
+                    if deeper is not None:
+                        return deeper
+                # the operand itself: only when it cannot have changed since the aggregate was built
+                if not single_def(q['l']) and not (q['l'] <= argc and not defs.get(q['l'])):
+                    return None
+                return {'k': 'copy', 'place': np_}
+            changed = 0
+            for blk in live:
+                for st in blk['stmts']:
+                    if st.get('k') != 'assign' or st['rv'].get('k') != 'use':
+                        continue
+                    o = st['rv']['op']
+                    if o.get('k') not in ('copy', 'move') or not o['place']['p']:
+                        continue
+                    r = resolve(o['place'])
+                    if r is not None:
+                        if r.get('k') == 'copy' and o.get('k') == 'move':
+                            r['k'] = 'move'
+                        st['rv']['op'] = r
+                        st['fwd'] = True
+                        changed += 1
+            n += changed
+            if not changed:
+                break
+    return n
+
+
 def _reads_local(blk, x):
     """block blk reads local x (whole or projected) in a statement rvalue or its terminator operands"""
     hit = [False]
@@ -1964,6 +2317,8 @@ def inline_unknown(j, known):
     _guarded(j, notes, 'rename_back', lambda: rename_back(j, renamed), None)
     fields_renamed = _guarded(j, notes, 'rename_fields_back', lambda: rename_fields_back(j, load_known_adts()), {})
     res = _guarded(j, notes, 'inline_helpers', lambda: _inline_all(j, known), {'inlined': [], 'dropped': []})
+    res['reads_forwarded'] = _guarded(j, notes, 'forward_aggregate_reads', lambda: forward_aggregate_reads(j), 0) if not os.environ.get('MRL_NO_FWD') else 0
+    res['sroa'] = _guarded(j, notes, 'sroa', lambda: sroa(j), {}) if not os.environ.get('MRL_NO_SROA') else {}
     res['tails_split'] = _guarded(j, notes, 'split_tails', lambda: split_tails(j), [])
     res.update({'consts_expanded': consts_expanded, 'unwrapped': unwrapped, 'renamed': renamed, 'fields_renamed': fields_renamed, 'types_renamed': types_renamed, 'adaptors_desugared': n_desugared, 'consts_aliased': consts_aliased, 'notes': notes})
     return res
